@@ -280,8 +280,9 @@ VARIABLES accts,   \* login -> access set                       (account manager
 vars == <<accts, cap, live, banned, fx, rep, nm, last>>
 
 (* the world every harness case starts from: requester "req" (its access is set by the case), a second
-   logged-in user "other", two spare accounts *)
-Fresh == [l \in {"req", "other", "victim", "spare"} |-> IF l = "other" THEN Priv \ {23} ELSE {}]
+   logged-in user "other", two spare accounts, and a guest account holding every privilege (so that anything a
+   handler might copy from a default account is more than most creators hold) *)
+Fresh == [l \in {"req", "other", "victim", "spare", "guest"} |-> IF l = "other" THEN Priv \ {23} ELSE IF l = "guest" THEN Priv ELSE {}]
 
 Init == /\ accts = Fresh /\ cap = <<>> /\ live = {"req", "other"} /\ banned = {}
         /\ fx = {} /\ rep = "none" /\ nm = "acct" /\ last = [op |-> "init"]
@@ -314,13 +315,25 @@ Handle(s) ==
 
 (* Create: s.by asks for a new account s.login with access s.want, through New User (350) or the create
    branch of Update User (349).  When s.by is the requester its access is set to s.acc first. *)
+Shapes == {"full", "absent", "empty", "len1", "len4", "len7", "len9", "len16", "dup"}
+(* what a requested bitmap amounts to when the access field has an unusual shape (s.shape): absent or empty - no
+   privilege; shorter than 8 bytes - the privileges of the bytes that are there; longer - the first 8 bytes;
+   the field twice (the second one all ones) - the first one.  (This is what the code does; the property only says
+   that whatever results is within the creator's privileges.) *)
+EffWant(s) ==
+  CASE s.shape \in {"absent", "empty"} -> {}
+    [] s.shape = "len1" -> s.want \cap (0..7)
+    [] s.shape = "len4" -> s.want \cap (0..31)
+    [] s.shape = "len7" -> s.want \cap (0..55)
+    [] OTHER -> s.want
+
 Create(s) ==
   LET a1 == IF s.by = "req" THEN [accts EXCEPT !["req"] = s.acc] ELSE accts
       cacc == a1[s.by]
-      ok == 14 \in cacc /\ s.want \subseteq cacc /\ s.login \notin DOMAIN accts
+      ok == 14 \in cacc /\ EffWant(s) \subseteq cacc /\ s.login \notin DOMAIN accts
   IN
   /\ s.by \in DOMAIN accts
-  /\ accts' = IF ok THEN a1 @@ (s.login :> s.want) ELSE a1
+  /\ accts' = IF ok THEN a1 @@ (s.login :> EffWant(s)) ELSE a1
   /\ cap' = IF ok THEN cap @@ (s.login :> cacc) ELSE cap
   /\ rep' = IF ok THEN "ok" ELSE "refused"
   /\ fx' = IF ok THEN {"acct.create"} ELSE {}
@@ -359,7 +372,7 @@ Upd(s) ==
 
 Guard(s) ==
   CASE s.op = "handle" -> HasRow(s.t, s.k) /\ s.acc \subseteq Priv /\ s.rd \in {"atomic", "partial"}
-    [] s.op = "create" -> s.by \in DOMAIN accts /\ s.want \subseteq Priv /\ s.via \in {349, 350}
+    [] s.op = "create" -> s.by \in DOMAIN accts /\ s.want \subseteq Priv /\ s.via \in {349, 350} /\ s.shape \in Shapes
     [] s.op = "kick"   -> s.ban \in {0, 1, 2} /\ s.acc \subseteq Priv /\ s.tacc \subseteq Priv
                           /\ s.third \in {"none", "same", "other"} /\ s.pacc \subseteq Priv
     [] s.op = "rt"     -> s.S \subseteq Priv
